@@ -981,6 +981,17 @@ namespace
                             E = strip(U->getSubExpr());
                             continue;
                         }
+                        // overloaded operator! (e.g. std::basic_ios::operator!)
+                        if (auto* OC = dyn_cast<CXXOperatorCallExpr>(E))
+                        {
+                            if (OC->getOperator() == OO_Exclaim && OC->getNumArgs() == 1)
+                            {
+                                neg = !neg;
+                                E = strip(OC->getArg(0));
+                                T["conv"] = true;
+                                continue;
+                            }
+                        }
                         // contextual conversion to bool of a smart pointer / std::function / optional
                         if (auto* MC = dyn_cast<CXXMemberCallExpr>(E))
                         {
